@@ -360,6 +360,40 @@ pub fn run_cli(args: &[&str], timeout_s: u64) -> Result<CliOut, String> {
     })
 }
 
+/// The binary built with the verification hooks (`--cfg pumpkin_verif`): its time budgets can be
+/// made to fire at a given poll through `PUMPKIN_VERIF_STOP_AT_POLL`.
+pub const CLI_HOOKED: &str = "/verif/.build/clihook/release/pumpkin-solver";
+
+pub fn build_cli_hooked() -> Result<(), String> {
+    let st = Command::new("bash")
+        .arg("-c")
+        .arg("cd /repo && flock /verif/.build/clihook.lock env RUSTFLAGS='--cfg pumpkin_verif' CARGO_NET_OFFLINE=true CARGO_TARGET_DIR=/verif/.build/clihook CARGO_PROFILE_RELEASE_LTO=off CARGO_PROFILE_RELEASE_CODEGEN_UNITS=16 cargo build --release --offline -p pumpkin-solver --bin pumpkin-solver > /verif/.build/clihook_build.log 2>&1")
+        .status()
+        .map_err(|e| e.to_string())?;
+    if st.success() {
+        Ok(())
+    } else {
+        Err("building the hooked CLI failed, see /verif/.build/clihook_build.log".into())
+    }
+}
+
+/// Runs the hooked binary with its time budget firing at poll `stop_at`.
+pub fn run_cli_hooked(args: &[&str], timeout_s: u64, stop_at: u64) -> Result<CliOut, String> {
+    let out = Command::new("timeout")
+        .arg(format!("{timeout_s}"))
+        .arg(CLI_HOOKED)
+        .args(args)
+        .env("RUST_BACKTRACE", "0")
+        .env("PUMPKIN_VERIF_STOP_AT_POLL", stop_at.to_string())
+        .output()
+        .map_err(|e| e.to_string())?;
+    Ok(CliOut {
+        status: out.status.code(),
+        stdout: String::from_utf8_lossy(&out.stdout).into_owned(),
+        stderr: String::from_utf8_lossy(&out.stderr).into_owned(),
+    })
+}
+
 pub fn scratch_dir() -> String {
     let d = format!("/verif/.build/tmp/{}", std::process::id());
     let _ = std::fs::create_dir_all(&d);
@@ -660,13 +694,45 @@ impl Property for C14 {
         // ---- part B ----
         let dir = scratch_dir();
         let structured = structured_formulas(tier);
-        for (fi, f) in fs.iter().chain(structured.iter()).enumerate() {
+        // (formula whose truth is brute-forced, the same formula as it is written to the file)
+        let mut items: Vec<(Formula, Formula)> = fs.iter().chain(structured.iter()).map(|f| (f.clone(), f.clone())).collect();
+        // the same formulas over variable indices beyond 2^16: shifted as a block, spread out, and
+        // with only the last variables moved up
+        let renamed_bases: Vec<&Formula> = structured
+            .iter()
+            .step_by(if tier.quick() { 3 } else { 1 })
+            .chain(fs.iter().step_by(if tier.quick() { 29 } else { 7 }))
+            .filter(|f| f.n >= 1)
+            .collect();
+        for base in renamed_bases {
+            for kind in 0..3 {
+                let map = |v: usize| -> usize {
+                    match kind {
+                        0 => v + 65535,
+                        1 => v * 3000 + 60000,
+                        _ => {
+                            if v * 2 > base.n {
+                                v + 65536
+                            } else {
+                                v
+                            }
+                        }
+                    }
+                };
+                let clauses: Vec<Clause> = base.clauses.iter().map(|c| c.iter().map(|l| (map(l.unsigned_abs() as usize) as i32) * l.signum()).collect()).collect();
+                items.push((base.clone(), Formula { n: map(base.n), clauses }));
+            }
+        }
+        for (fi, (orig, f)) in items.iter().enumerate() {
             let my = idx;
             idx += 1;
-            let desc = || format!("B: {:?}", f.canonical());
+            let desc = || if f.n > 64 { format!("B: (n = {}) {:?}", f.n, f.canonical()) } else { format!("B: {:?}", f.canonical()) };
             ctl.case(my, &desc, &mut |cx| {
-                let truth = f.satisfiable();
+                let truth = orig.satisfiable();
                 cx.nontrivial = !f.clauses.is_empty();
+                if f.n != orig.n {
+                    cx.acc.count("formulas_over_variable_indices_beyond_65535", 1);
+                }
                 let texts = [
                     f.canonical(),
                     layout(f, &[(0, 5)], 1, 1),
